@@ -1735,9 +1735,7 @@ class SpaceUpdater(SharedSpaceOperations):
             if conflict:
                 raise NameError("name conflict: %s" % conflict)
 
-        self._instructions.append(
-            Instruction(self._update_derived_space, (node,)))
-        for _,  v in nx.edge_dfs(self._graph, node):
+        for v in self._graph.ordered_subs(node):    # node comes first
             self._instructions.append(
                 Instruction(self._update_derived_space, (v,)))
 
@@ -1756,10 +1754,7 @@ class SpaceUpdater(SharedSpaceOperations):
         for b in basenodes:
             self._graph.remove_edge(b, node)
 
-        self._instructions.append(
-            Instruction(self._update_derived_space, (node,))
-        )
-        for _, v in nx.edge_bfs(self.manager._graph, node):
+        for v in self._graph.ordered_subs(node):    # node comes first
             self._instructions.append(
                 Instruction(self._update_derived_space, (v,))
             )
